@@ -98,10 +98,28 @@ func (c *bCore[M]) genTabNE(rt *rapid.T, label string, maxLen int) bTab {
 }
 
 func (c *bCore[M]) tabLib(t bTab, fuel *kit.Fuel) func(int) M {
+	// Values of the persistent kinds (seq, list, lazy, fn0, fn1) may be handed out more than once: for the
+	// arguments that select an even table row the function returns the SAME value it returned before for
+	// that (row, shift) - a combinator must not consume or alter what a Kleisli function gave it. Iterators
+	// are one-shot and always built afresh.
+	cache := map[[2]int]M{}
 	return func(x int) M {
 		fuel.Use()
 		r, s := t.row(x)
-		return c.build(r, s)
+		if c.name == "iterator" {
+			return c.build(r, s)
+		}
+		ri := bMod(x, len(t.Rows))
+		if ri%2 != 0 {
+			return c.build(r, s)
+		}
+		k := [2]int{ri, s}
+		if v, ok := cache[k]; ok {
+			return v
+		}
+		v := c.build(r, s)
+		cache[k] = v
+		return v
 	}
 }
 
